@@ -441,6 +441,75 @@ fn long_choice_jobs() -> Vec<Job> {
     jobs
 }
 
+/// Sources with tens of millions of members (beyond the 24 bits of an f32 draw): the chosen index is
+/// judged by its residues mod 2, 3, 5 and 8 and by 16 index buckets.  Members are `u32` indices.
+fn huge_choice_jobs() -> Vec<Job> {
+    let mut jobs = vec![];
+    for (flavour, len) in [(0usize, 3usize << 23), (11, (1usize << 25) + 1)] {
+        let name = format!("{} over {len} members, built once", FLAVOURS[flavour]);
+        jobs.push(Job {
+            name: name.clone(),
+            run: Box::new(move |trials, seed| {
+                let trials = trials / 2;
+                let mut rng = StdRng::seed_from_u64(seed);
+                let items: Vec<u32> = (0..len as u32).collect();
+                let mut classes: Vec<(usize, Vec<u64>)> = vec![(2, vec![0; 2]), (3, vec![0; 3]), (5, vec![0; 5]), (8, vec![0; 8])];
+                let mut buckets = [0u64; 16];
+                let mut note = |v: u32| -> Result<(), Fail> {
+                    let v = v as usize;
+                    if v >= len {
+                        return Err(Fail::new("choice/not-a-member", format!("{name}: returned {v}")));
+                    }
+                    for (m, c) in &mut classes {
+                        c[v % *m] += 1;
+                    }
+                    buckets[v / len.div_ceil(16)] += 1;
+                    Ok(())
+                };
+                if flavour == 0 {
+                    let d = match guarded(|| items.into_distribution()) {
+                        Ok(Ok(d)) => d,
+                        Ok(Err(_)) => return Err(Fail::new("choice/spurious-empty-error", format!("{name}: rejected"))),
+                        Err(p) => return Err(Fail::new("choice/panic", format!("{name}: {p}"))),
+                    };
+                    if ChoicesDistribution::num_choices(&d).get() != len {
+                        return Err(Fail::new("choice/num_choices", format!("{name}: num_choices() = {}", ChoicesDistribution::num_choices(&d))));
+                    }
+                    for _ in 0..trials {
+                        note(d.sample(&mut rng))?;
+                    }
+                } else {
+                    let d = match guarded(|| IntoDistribution::<u32>::into_distribution(items.as_slice())) {
+                        Ok(Ok(d)) => d,
+                        Ok(Err(_)) => return Err(Fail::new("choice/spurious-empty-error", format!("{name}: rejected"))),
+                        Err(p) => return Err(Fail::new("choice/panic", format!("{name}: {p}"))),
+                    };
+                    if ChoicesDistribution::num_choices(&d).get() != len {
+                        return Err(Fail::new("choice/num_choices", format!("{name}: num_choices() = {}", ChoicesDistribution::num_choices(&d))));
+                    }
+                    for _ in 0..trials {
+                        note(d.sample(&mut rng))?;
+                    }
+                }
+                let mut stats = vec![];
+                for (m, c) in &classes {
+                    for (r, k) in c.iter().enumerate() {
+                        let members = (0..*m).filter(|x| *x == r).map(|x| (len - x).div_ceil(*m)).sum::<usize>();
+                        stats.push(Stat::new("choice/not-uniform", format!("{name}: index congruent {r} mod {m} chosen"), *k, trials, members as f64 / len as f64));
+                    }
+                }
+                let width = len.div_ceil(16);
+                for (b, k) in buckets.iter().enumerate() {
+                    let members = (len.min((b + 1) * width)).saturating_sub(b * width);
+                    stats.push(Stat::new("choice/not-uniform", format!("{name}: a member of index bucket {b}/16 chosen"), *k, trials, members as f64 / len as f64));
+                }
+                Ok(stats)
+            }),
+        });
+    }
+    jobs
+}
+
 /// Member counts beyond 16 and 32 bits, reachable at no cost with zero-sized members: every flavour must
 /// accept the collection, report exactly its length and hand out a member.
 fn wide_count_check(ctx: &mut Ctx) {
@@ -474,7 +543,7 @@ fn wide_count_check(ctx: &mut Ctx) {
 }
 
 pub fn run(ctx: &mut Ctx) {
-    ctx.rule = "collections: sizes 0..300 plus boundary sizes up to 5000 (and 100000 once per run) through Generator for Vec<T>, Bitstring, Plushy, populations of scored individuals and nested collections, into_ and to_ flavours, with an element generator that counts how often it is asked and tags what it emits (length = size, asked exactly size times, elements are exactly the generator's output). choices: all 14 conversion flavours of conversion.rs (Vec / array / slice x into / to x owned-cloning / borrowing / cloning) plus uniform_distribution_of!, sources of length 0..8 (membership) and 1..200 (frequencies) with and without duplicates, plus the Vec / slice flavours built once over 255..65537 members and sampled many times (16 index buckets and the end members), and sources of up to 2^33+1 zero-sized members (accepted, num_choices exact): empty => rejected at construction without panic; samples are members (pointer identity for borrowing flavours), num_choices = length; member frequencies = multiplicity / length (Chernoff/KL). non-trivial = size >= 2 / source length >= 2; statistics with 0 < p < 1".into();
+    ctx.rule = "collections: sizes 0..300 plus boundary sizes up to 5000 (and 100000 once per run) through Generator for Vec<T>, Bitstring, Plushy, populations of scored individuals and nested collections, into_ and to_ flavours, with an element generator that counts how often it is asked and tags what it emits (length = size, asked exactly size times, elements are exactly the generator's output). choices: all 14 conversion flavours of conversion.rs (Vec / array / slice x into / to x owned-cloning / borrowing / cloning) plus uniform_distribution_of!, sources of length 0..8 (membership) and 1..200 (frequencies) with and without duplicates, plus the Vec / slice flavours built once over 255..65537 members and sampled many times (16 index buckets and the end members), two sources of 25 and 33 million members (index residues mod 2, 3, 5, 8 and 16 buckets: beyond the resolution of a 24-bit draw), and sources of up to 2^33+1 zero-sized members (accepted, num_choices exact): empty => rejected at construction without panic; samples are members (pointer identity for borrowing flavours), num_choices = length; member frequencies = multiplicity / length (Chernoff/KL). non-trivial = size >= 2 / source length >= 2; statistics with 0 < p < 1".into();
     let (n, trials, max) = ctx.tier.pick((300_000u32, 1_000_000u64, 300usize), (5_000_000, 10_000_000, 2_000));
     // one very large request per run
     ctx.run_cases(
@@ -490,6 +559,7 @@ pub fn run(ctx: &mut Ctx) {
     ctx.run_prop("generated", n, move || strategy(max), oracle);
     run_jobs(ctx, "choice_uniformity", uniformity_jobs(), trials);
     run_jobs(ctx, "choice_uniformity_long_sources", long_choice_jobs(), trials);
+    run_jobs(ctx, "choice_uniformity_huge_sources", huge_choice_jobs(), trials);
     wide_count_check(ctx);
 }
 
@@ -497,6 +567,9 @@ pub fn replay(ctx: &mut Ctx, sub: &str, case: &Value) {
     if sub == "choice_uniformity" {
         let trials = ctx.tier.pick(1_000_000u64, 10_000_000);
         run_jobs(ctx, "choice_uniformity", uniformity_jobs(), trials);
+    } else if sub == "choice_uniformity_huge_sources" {
+        let trials = ctx.tier.pick(1_000_000u64, 10_000_000);
+        run_jobs(ctx, "choice_uniformity_huge_sources", huge_choice_jobs(), trials);
     } else if sub == "wide_member_counts" {
         wide_count_check(ctx);
     } else if sub == "choice_uniformity_long_sources" {
